@@ -388,6 +388,8 @@ Proof.
     match goal with
     | H : server_try_resume _ _ _ _ _ _ _ = (_, SResume ?s ByCache) |- _ =>
         destruct (server_try_resume_sound _ _ _ _ _ _ _ _ _ _ Hs H) as [_ [_ [_ [_ [_ [_ [e [A [B _]]]]]]]]]
+    | H : server_try_resume _ _ _ _ _ _ _ = (_, SResume ?s (ByBoth _)) |- _ =>
+        destruct (server_try_resume_sound _ _ _ _ _ _ _ _ _ _ Hs H) as [_ [_ [_ [_ [_ [_ [e [A [B _]]]]]]]]]
     end;
     exists e; split; [exact A|rewrite B; reflexivity].
 Qed.
